@@ -4,11 +4,7 @@ import json, os, sys
 ROOT = os.path.dirname(os.path.dirname(os.path.abspath(__file__)))
 
 # id -> (technique, level text, level note, design ref)
-T = {
- "C01": ("property-based testing: generated word vectors vs bit-at-a-time reference model, 3 feature builds",
-         "Generated-input search (proptest-driven entropy, Unstructured decoding, shrinking) comparing every BitVec answer with a bit-loop model over the first len bits, for random sample rates, garbage past len, surplus words, in the default/simd/portable-popcount builds. Exploration: no counterexample among the generated classes; cannot show absence.",
-         "Trusted: the harness's bit-loop model; proptest/arbitrary; out-of-range get() is a documented panic and not called.", "§4 C01"),
-}
+T = {k: tuple(v) for k, v in json.load(open(os.path.join(ROOT, "tools", "manifest_table.json"))).items()}
 
 BUILT = sorted(T.keys())
 
